@@ -2,7 +2,7 @@
 import itertools
 
 from mc.checks import codec_matrix as CM
-from mc.core.runner import Result, pyasn1_site, exc_text
+from mc.core.runner import guarded, Result, pyasn1_site, exc_text
 from mc.model import x690 as M
 from mc.model import forms as F
 from mc.model import universe as U
@@ -208,7 +208,7 @@ def shard(tier, i, n, seed):
         idx += 1
         if (idx + seed) % n != i:
             continue
-        check(idx, cfg, R)
+        guarded(R, lambda: check(idx, cfg, R), {'cfg': [str(x) for x in cfg[:4]] + list(cfg[6:])}, {'codec:' + cfg[7]}, idx)
     return R
 
 
